@@ -16,6 +16,7 @@ import H263V.Lemmas.SorensonPicture
 import H263V.Lemmas.GatherSpec
 import H263V.Lemmas.StreamAny
 import H263V.Lemmas.ReconSpec
+import H263V.Lemmas.LevelArrays
 namespace H263V.Thm.C03
 open H263V H263V.Gather H263V.Mv H263V.Spec.Vlc
 
@@ -157,6 +158,17 @@ theorem predicted_picture_samples (types : Array MbType) (r : DecPic) (mvs : Arr
     (out.cr.size = r.cr.size ∧ ∀ k, out.cr.getD k 0 =
       idctVal crLv m r.chromaSpr r.cr.size k (chromaAt types r.cr r.chromaSpr mvs m pic.cr k)) :=
   reconstruct_pointwise types r mvs m w hh pic out lumaLv cbLv crLv hdims hw hc hcs hm hl hb hr h
+
+open H263V.State H263V.Lemmas.LevelArrays H263V.Lemmas.PictureRoundTrip in
+/-- **The vectors the macroblock loop files.**  For any macroblock list run through the (bit-free) loop from any loop state, the
+vector array grows by one entry per macroblock, `MvChain`: entry `i` is `mbVec` of macroblock `i` over the entries filed before it
+— zero vectors for not-coded and INTRA macroblocks; for INTER macroblocks the candidate-median predictor (`predict_candidate`
+over the filed vectors; for four-vector macroblocks also over this macroblock's vectors decoded so far) plus the coded
+differential, wrapped into the vector range (`mv_decode`) — C12 states what those two functions compute. -/
+theorem vector_array (hdr : PicHdr) (dims : Option (Nat × Nat)) (running m : Nat) (mbs : List Spec.Syntax.MbD) (l l' : Loop)
+    (h : semMbs hdr dims running m mbs l = .ok l') :
+    ∃ vs, MvChain hdr dims running m l.mvs mbs vs ∧ l'.mvs = l.mvs ++ vs.toArray :=
+  semMbs_vectors hdr dims running m mbs l l' h
 
 open H263V.Lemmas.GatherPic H263V.Lemmas.ReconSpec in
 /-- a zero vector predicts the co-located reference sample (not-coded macroblocks, which also carry no residual, are exact copies
